@@ -63,8 +63,17 @@ MVerdict(q) ==
     [] q.f = "add_months_raw" ->
          IF q.o = "ok" /\ q.r = AddMonthsRawDecl(q.d, q.mo, RollOfJson(q.roll)) THEN "ok" ELSE "bad"
 
+\* a union's projection must itself be the union of the projections of its individually built parts
+\* (otherwise judging against the logged bitmaps would inherit a defect of is_bus_day / is_settlement)
+RECURSIVE InterAll(_, _)
+InterAll(sets, acc) == IF sets = <<>> THEN acc ELSE InterAll(Tail(sets), acc \cap Head(sets))
+ProjOK(e) == "mb" \in DOMAIN e =>
+   LET rng == e.w0..(e.w0 + e.n - 1) c == CalOfEvent(e) IN
+   /\ c.bus = InterAll([k \in 1..Len(e.mb) |-> BitsToSet(e.mb[k], e.w0, e.n)], rng)
+   /\ c.stl = (IF e.hs THEN InterAll([k \in 1..Len(e.sb) |-> BitsToSet(e.sb[k], e.w0, e.n)], rng) ELSE rng)
 BadOf(e) == IF e.op = "cal"
             THEN LET c == CalOfEvent(e) IN {k \in 1..Len(e.q) : Owned(e.q[k]) /\ Verdict(c, e.q[k]) = "bad"}
+                                           \cup (IF ProjOK(e) THEN {} ELSE {0})
             ELSE {k \in 1..Len(e.q) : MVerdict(e.q[k]) = "bad"}
 OowOf(e) == IF e.op = "cal"
             THEN LET c == CalOfEvent(e) IN Cardinality({k \in 1..Len(e.q) : Owned(e.q[k]) /\ Verdict(c, e.q[k]) = "oow"})
